@@ -31,7 +31,7 @@ def ty_mich(t) -> str:
 
 
 _TYC = {'int': 'TInt', 'nat': 'TNat', 'string': 'TString', 'bytes': 'TBytes', 'mutez': 'TMutez', 'timestamp': 'TTimestamp',
-        'address': 'TAddress', 'chain_id': 'TChainId', 'bool': 'TBool', 'unit': 'TUnit', 'operation': 'TOperation',
+        'address': 'TAddress', 'chain_id': 'TChainId', 'set': 'TSet', 'map': 'TMap', 'bool': 'TBool', 'unit': 'TUnit', 'operation': 'TOperation',
         'pair': 'TPair', 'option': 'TOption', 'or': 'TOr', 'list': 'TList'}
 
 
@@ -46,7 +46,7 @@ def ty_of_expr(e) -> Any:
     if not isinstance(e, dict) or 'prim' not in e:
         return None
     p, args = e['prim'], e.get('args', [])
-    if p in _TYC and len(args) == {'pair': 2, 'or': 2, 'option': 1, 'list': 1}.get(p, 0):
+    if p in _TYC and len(args) == {'pair': 2, 'or': 2, 'option': 1, 'list': 1, 'set': 1, 'map': 2}.get(p, 0):
         sub = [ty_of_expr(a) for a in args]
         if any(s is None for s in sub):
             return None
@@ -74,8 +74,10 @@ def data_mich(d, paren: bool = True) -> str:
         return 'Unit'
     if k == 'none':
         return 'None'
-    if k == 'list':
+    if k in ('list', 'set'):
         return '{ ' + ' ; '.join(data_mich(x, False) for x in d[1]) + ' }'
+    if k == 'map':
+        return '{ ' + ' ; '.join(f'Elt {data_mich(a)} {data_mich(b)}' for a, b in d[1]) + ' }'
     if k == 'pair':
         r = f'Pair {data_mich(d[1])} {data_mich(d[2])}'
     elif k == 'some':
@@ -115,12 +117,17 @@ def data_coq(d) -> str:
         return f'(DRight {data_coq(d[1])})'
     if k == 'list':
         return f'(DList {clist(data_coq(x) for x in d[1])})'
+    if k == 'set':
+        return f'(DSet {clist(data_coq(x) for x in d[1])})'
+    if k == 'map':
+        return f'(DMap {clist(f"(DPair {data_coq(a)} {data_coq(b)})" for a, b in d[1])})'
     raise ValueError(d)
 
 
 NULLARY = ['SWAP', 'PAIR', 'UNPAIR', 'CAR', 'CDR', 'SOME', 'UNIT', 'CONS', 'SIZE', 'ADD', 'SUB', 'MUL', 'NEG', 'ABS', 'ISNAT',
            'INT', 'EDIV', 'COMPARE', 'EQ', 'NEQ', 'LT', 'GT', 'LE', 'GE', 'AND', 'OR', 'XOR', 'NOT', 'CONCAT', 'FAILWITH',
            'LSL', 'LSR', 'SLICE',
+           'MEM', 'GET', 'UPDATE', 'GET_AND_UPDATE',
            'SUB_MUTEZ', 'AMOUNT', 'BALANCE', 'SENDER', 'SOURCE', 'SELF_ADDRESS', 'NOW', 'LEVEL', 'CHAIN_ID']
 
 
@@ -149,8 +156,10 @@ def code_mich(i, rng: random.Random | None = None) -> str:
         return f'{k} {code_mich(i[1], rng)} {code_mich(i[2], rng)}'
     if k in ('LOOP', 'LOOP_LEFT', 'ITER', 'MAP'):
         return f'{k} {code_mich(i[1], rng)}'
-    if k in ('LEFT', 'RIGHT', 'NONE', 'NIL'):
+    if k in ('LEFT', 'RIGHT', 'NONE', 'NIL', 'EMPTY_SET'):
         return f'{k} {ty_mich(i[1])}'
+    if k == 'EMPTY_MAP':
+        return f'{k} {ty_mich(i[1])} {ty_mich(i[2])}'
     raise ValueError(i)
 
 
@@ -173,8 +182,10 @@ def code_coq(i) -> str:
         return f'(I_{k} {code_coq(i[1])} {code_coq(i[2])})'
     if k in ('LOOP', 'LOOP_LEFT', 'ITER', 'MAP'):
         return f'(I_{k} {code_coq(i[1])})'
-    if k in ('LEFT', 'RIGHT', 'NONE', 'NIL'):
+    if k in ('LEFT', 'RIGHT', 'NONE', 'NIL', 'EMPTY_SET'):
         return f'(I_{k} {ty_coq(i[1])})'
+    if k == 'EMPTY_MAP':
+        return f'(I_{k} {ty_coq(i[1])} {ty_coq(i[2])})'
     raise ValueError(i)
 
 
@@ -200,8 +211,30 @@ def code_prims(i, acc: set | None = None) -> set:
 # --------------------------------------------------------------------------------------
 # random types and values
 # --------------------------------------------------------------------------------------
+def mich_key(t, d):
+    """a Python sort key realising the Michelson order on comparable values of type t (independent of pytezos)"""
+    k = t[0]
+    if k in ('int', 'nat', 'mutez', 'timestamp'):
+        return d[1]
+    if k == 'string':
+        return d[1].encode('ascii')
+    if k == 'bytes':
+        return d[1]
+    if k == 'bool':
+        return 1 if d[1] else 0
+    if k == 'unit':
+        return 0
+    if k == 'pair':
+        return (mich_key(t[1], d[1]), mich_key(t[2], d[2]))
+    if k == 'option':
+        return (0,) if d[0] == 'none' else (1, mich_key(t[1], d[1]))
+    if k == 'or':
+        return (0, mich_key(t[1], d[1])) if d[0] == 'left' else (1, mich_key(t[2], d[1]))
+    raise ValueError(t)
+
+
 def comparable(t) -> bool:
-    if t[0] in ('list', 'operation', 'address', 'chain_id'):   # address/chain_id: outside the fragment's COMPARE
+    if t[0] in ('list', 'set', 'map', 'operation', 'address', 'chain_id'):   # address/chain_id: outside the fragment's COMPARE
         return False
     return all(comparable(x) for x in t[1:])
 
@@ -209,7 +242,11 @@ def comparable(t) -> bool:
 def gen_type(rng: random.Random, depth: int = 2, comparable_only: bool = False):
     if depth <= 0 or rng.random() < 0.45:
         return (rng.choice(['int', 'int', 'nat', 'nat', 'string', 'bytes', 'bool', 'unit', 'mutez', 'timestamp']),)
-    k = rng.choice(['pair', 'pair', 'option', 'or', 'list'] if not comparable_only else ['pair', 'pair', 'option', 'or'])
+    k = rng.choice(['pair', 'pair', 'option', 'or', 'list', 'set', 'map'] if not comparable_only else ['pair', 'pair', 'option', 'or'])
+    if k == 'set':
+        return ('set', gen_type(rng, depth - 1, True))
+    if k == 'map':
+        return ('map', gen_type(rng, depth - 1, True), gen_type(rng, depth - 1, comparable_only))
     if k in ('pair', 'or'):
         return (k, gen_type(rng, depth - 1, comparable_only), gen_type(rng, depth - 1, comparable_only))
     return (k, gen_type(rng, depth - 1, comparable_only))
@@ -282,6 +319,18 @@ def gen_data(rng: random.Random, t, depth: int = 3):
         if t[1][0] == 'operation':
             n = 0
         return ('list', [gen_data(rng, t[1], depth - 1) for _ in range(n)])
+    if k in ('set', 'map'):
+        n = rng.choice([0, 1, 2, 2, 3, 4])
+        keys = {}
+        for _ in range(n):
+            x = gen_data(rng, t[1], depth - 1)
+            if keys and rng.random() < 0.5:
+                x = near_data(rng, t[1], rng.choice(list(keys.values())))
+            keys[repr(mich_key(t[1], x))] = x
+        ks = sorted(keys.values(), key=lambda x: mich_key(t[1], x))
+        if k == 'set':
+            return ('set', ks)
+        return ('map', [(x, gen_data(rng, t[2], depth - 1)) for x in ks])
     raise ValueError(t)
 
 
@@ -473,6 +522,7 @@ class Gen:
         add(0.4, lambda: ([('UNIT',)], [T_UNIT] + s))
         add(0.5, lambda: self._nil(s))
         add(0.4, lambda: self._none(s))
+        add(0.5, lambda: self._empty_coll(s))
         if s:
             add(1.0 if len(s) > 3 else 0.4, lambda: ([('DROP', 1)], s[1:]))
             add(1.5, lambda: self._dup(s))
@@ -497,6 +547,16 @@ class Gen:
                 add(2.5, lambda: self._compare(s))
             if snd[0] == 'list' and snd[1] == top:
                 add(3.0, lambda: ([('CONS',)], s[1:]))
+            if snd[0] in ('set', 'map') and snd[1] == top:
+                add(4.0, lambda: ([('MEM',)], [T_BOOL] + s[2:]))
+                if snd[0] == 'map':
+                    add(4.0, lambda: ([('GET',)], [('option', snd[2])] + s[2:]))
+            if len(s) >= 3 and s[2][0] == 'set' and s[2][1] == top and snd == T_BOOL:
+                add(8.0, lambda: ([('UPDATE',)], s[2:]))
+            if len(s) >= 3 and s[2][0] == 'map' and s[2][1] == top and snd == ('option', s[2][2]):
+                add(8.0, lambda: ([(self.rng.choice(['UPDATE', 'UPDATE', 'GET_AND_UPDATE']),)], None))
+            if snd[0] in ('set', 'map') and comparable(snd[1]):
+                add(2.5, lambda: self._coll_op(s))
             if top[0] in ('int', 'nat') and snd[0] in ('int', 'nat'):
                 add(4.0, lambda: self._arith(s))
             if (top[0], snd[0]) in MIXED_ARITH:
@@ -561,6 +621,8 @@ class Gen:
             if res is None:
                 continue
             ins, new = res
+            if new is None:   # UPDATE / GET_AND_UPDATE on a map
+                new = s[2:] if ins[0][0] == 'UPDATE' else [s[1]] + s[2:]
             self.budget -= sum(code_size(i) for i in ins)
             return ins, new
         return None
@@ -607,6 +669,50 @@ class Gen:
     def _updaten(self, s):
         k = self.rng.randrange(0, 2 * spine_len(s[1]) - 1)
         return [('UPDATEN', k)], [ty_update_n(k, s[0], s[1])] + s[2:]
+
+    def _empty_coll(self, s):
+        k = gen_type(self.rng, 1, True)
+        if self.rng.random() < 0.5:
+            return [('EMPTY_SET', k)], [('set', k)] + s
+        v = gen_type(self.rng, 1)
+        return [('EMPTY_MAP', k, v)], [('map', k, v)] + s
+
+    def _coll_push_op(self, s):
+        """collection on top: push a key (and a value) and query/update it"""
+        c = s[0]
+        kt = c[1]
+        key = [('PUSH', kt, gen_data(self.rng, kt))]
+        r = self.rng.random()
+        if c[0] == 'set':
+            if r < 0.4:
+                return key + [('MEM',)], [T_BOOL] + s[1:]
+            return [('PUSH', T_BOOL, ('bool', self.rng.random() < 0.6))] + key + [('UPDATE',)], s
+        vt = c[2]
+        if r < 0.2:
+            return key + [('MEM',)], [T_BOOL] + s[1:]
+        if r < 0.45:
+            return key + [('GET',)], [('option', vt)] + s[1:]
+        val = [self.push(('option', vt))]
+        if r < 0.8:
+            return val + key + [('UPDATE',)], s
+        return val + key + [('GET_AND_UPDATE',)], [('option', vt)] + s
+
+    def _coll_op(self, s):
+        """key-typed value on top of a collection of that key type? otherwise fall back"""
+        if s[1][1] != s[0]:
+            return None
+        return [('MEM',)], [T_BOOL] + s[2:]
+
+    def _map_map(self, s):
+        mt, rest = s[0], s[1:]
+        k, v = mt[1], mt[2]
+        code, res = self.seq([('pair', k, v)] + rest, self.rng.randrange(0, 4))
+        if res == FAIL:
+            code = code[:-1]
+            res = self._last_stack
+        # keep the value type (a type-changing body over an empty map is the known finding)
+        code = code + self.convert(res, [v] + rest)
+        return [('MAP', ('SEQ', code))], s
 
     def _nil(self, s):
         t = gen_type(self.rng, 1)
@@ -703,7 +809,7 @@ class Gen:
 
     def _iter(self, s):
         lt, rest = s[0], s[1:]
-        a = lt[1]
+        a = lt[1] if lt[0] != 'map' else ('pair', lt[1], lt[2])
         # purposeful bodies when the types fit
         opts = []
         if rest and rest[0] in (T_INT, T_NAT) and a in (T_INT, T_NAT) and (rest[0] == T_INT or a == T_NAT):
@@ -844,7 +950,11 @@ def known_finding_cases(rng: random.Random, n: int):
         body = [('DROP', 1), ('PUSH', b, gen_data(rng, b))]
         cont = [list(x) for x in rng.choice(conts)]
         cont = [('PUSH', b, gen_data(rng, b)) if c[0] == 'PUSH' else tuple(c) for c in cont]
-        if rng.random() < 0.5:
+        if rng.random() < 0.3:
+            kt = gen_type(rng, 1, True)
+            inputs = [(('map', kt, a), ('map', []))] if rng.random() < 0.5 else []
+            code = ([] if inputs else [('EMPTY_MAP', kt, a)]) + [('MAP', ('SEQ', body))] + rng.choice([[], [('SIZE',)], [('DROP', 1)]])
+        elif rng.random() < 0.5:
             inputs = [(('list', a), ('list', []))]
             code = [('MAP', ('SEQ', body))] + cont
         else:
@@ -920,6 +1030,15 @@ def obj_pval(v) -> str:
         raise Unrenderable(f'malformed or value {v.items!r}')
     if p == 'list':
         return f'(PList {ty_coq(obj_ty(type(v).args[0]))} {clist(obj_pval(x) for x in v.items)})'
+    if p == 'set':
+        return f'(PSet {ty_coq(obj_ty(type(v).args[0]))} {clist(obj_pval(x) for x in v.items)})'
+    if p == 'map':
+        ents = []
+        for ent in v.items:
+            if not (isinstance(ent, tuple) and len(ent) == 2):
+                raise Unrenderable(f'map entry {ent!r}')
+            ents.append(f'(PPair {obj_pval(ent[0])} {obj_pval(ent[1])})')
+        return f'(PMap {ty_coq(obj_ty(type(v).args[0]))} {ty_coq(obj_ty(type(v).args[1]))} {clist(ents)})'
     raise Unrenderable(f'value outside the fragment: {p}')
 
 
@@ -1038,8 +1157,10 @@ def data_micheline(d) -> Any:
         return {'prim': 'None'}
     if k in ('some', 'left', 'right'):
         return {'prim': k.capitalize(), 'args': [data_micheline(d[1])]}
-    if k == 'list':
+    if k in ('list', 'set'):
         return [data_micheline(x) for x in d[1]]
+    if k == 'map':
+        return [{'prim': 'Elt', 'args': [data_micheline(a), data_micheline(b)]} for a, b in d[1]]
     raise ValueError(d)
 
 
@@ -1082,10 +1203,14 @@ def data_of_micheline(t, m):
             if m['prim'] == 'Right':
                 return ('right', data_of_micheline(t[2], m['args'][0]))
             raise KeyError
-        if k == 'list':
+        if k in ('list', 'set'):
             if not isinstance(m, list):
                 raise KeyError
-            return ('list', [data_of_micheline(t[1], x) for x in m])
+            return (k, [data_of_micheline(t[1], x) for x in m])
+        if k == 'map':
+            if not isinstance(m, list) or any(x.get('prim') != 'Elt' for x in m):
+                raise KeyError
+            return ('map', [(data_of_micheline(t[1], x['args'][0]), data_of_micheline(t[2], x['args'][1])) for x in m])
     except Unrenderable:
         raise
     except Exception as e:  # noqa: BLE001
@@ -1276,6 +1401,40 @@ def instr_sweep(rng: random.Random, thorough: bool = False):
         add([(('list', a), gen_data(rng, ('list', a)))], [('IF_CONS', ('SEQ', [('PAIR',), ('SOME',)]), ('SEQ', [('NONE', ('pair', a, ('list', a)))]))])
         add([(('list', a), gen_data(rng, ('list', a)))], [('MAP', ('SEQ', [('DUP', 1), ('PAIR',), ('CAR',)]))])
         add([(('list', a), gen_data(rng, ('list', a)))], [('NIL', a), ('SWAP',), ('ITER', ('SEQ', [('CONS',)]))])
+    # sets and maps with simple and composite keys
+    key_types = [T_INT, T_STRING, T_MUTEZ, T_BYTES, ('pair', T_INT, T_STRING), ('option', T_NAT), ('or', T_INT, T_BOOL),
+                 ('pair', ('pair', T_NAT, T_BOOL), T_INT), ('option', T_UNIT), ('pair', T_UNIT, ('or', T_STRING, T_NAT))]
+    val_types = [T_INT, T_STRING, ('pair', T_NAT, T_BOOL), ('option', T_INT), ('list', T_INT)]
+    for kt in key_types:
+        for rep in range(3 if thorough else 1):
+            st, sv = ('set', kt), gen_data(rng, ('set', kt))
+            vt = rng.choice(val_types)
+            mt = ('map', kt, vt)
+            mv = gen_data(rng, mt)
+            probes = [gen_data(rng, kt)] + [x for x in sv[1][:2]] + [x for x, _ in mv[1][:2]]
+            probes += [near_data(rng, kt, x) for x in probes[:2]]
+            for x in probes:
+                add([(kt, x), (st, sv)], [('MEM',)])
+                add([(kt, x), (T_BOOL, ('bool', True)), (st, sv)], [('UPDATE',)])
+                add([(kt, x), (T_BOOL, ('bool', False)), (st, sv)], [('UPDATE',)])
+                add([(kt, x), (mt, mv)], [('MEM',)])
+                add([(kt, x), (mt, mv)], [('GET',)])
+                nv = gen_data(rng, vt)
+                add([(kt, x), (('option', vt), ('some', nv)), (mt, mv)], [('UPDATE',)])
+                add([(kt, x), (('option', vt), ('none',)), (mt, mv)], [('UPDATE',)])
+                add([(kt, x), (('option', vt), ('some', nv)), (mt, mv)], [('GET_AND_UPDATE',)])
+                add([(kt, x), (('option', vt), ('none',)), (mt, mv)], [('GET_AND_UPDATE',)])
+            add([(st, sv)], [('SIZE',)])
+            add([(mt, mv)], [('SIZE',)])
+            add([(st, sv)], [('NIL', kt), ('SWAP',), ('ITER', ('SEQ', [('CONS',)]))])
+            add([(mt, mv)], [('NIL', ('pair', kt, vt)), ('SWAP',), ('ITER', ('SEQ', [('CONS',)]))])
+            add([(mt, mv)], [('MAP', ('SEQ', [('CDR',)]))])
+            add([(mt, mv)], [('MAP', ('SEQ', [('UNPAIR',), ('SWAP',), ('PAIR',)])), ('DUP', 1), ('SIZE',)])
+            if mv[1]:
+                add([(mt, mv)], [('MAP', ('SEQ', [('CAR',)]))])          # changes the value type (non-empty map)
+                add([(mt, mv)], [('MAP', ('SEQ', [('CDR',), ('SOME',)]))])
+            add([], [('EMPTY_SET', kt), ('PUSH', T_BOOL, ('bool', True)), ('PUSH', kt, gen_data(rng, kt)), ('UPDATE',)])
+            add([], [('EMPTY_MAP', kt, vt), ('PUSH', ('option', vt), ('some', gen_data(rng, vt))), ('PUSH', kt, gen_data(rng, kt)), ('UPDATE',)])
     # right combs of every width; leaves and the last component may themselves be pairs
     leaf_types = [T_INT, T_STRING, ('pair', T_NAT, T_BOOL), ('option', T_INT), T_UNIT]
     for width in range(2, 6):
